@@ -31,6 +31,7 @@ MODULES = {
     "value_c05": ("src/value.rs", K / "value_c05.rs"),
     "desc_c15": ("src/desc.rs", K / "desc_c15.rs"),
     "desc_c09": ("src/desc.rs", K / "desc_c09.rs"),
+    "metrics_c09": ("src/metrics.rs", K / "metrics_c09.rs"),
     "atomic_c01": ("src/atomic64.rs", K / "atomic_c01.rs"),
     "counter_c01": ("src/counter.rs", K / "counter_c01.rs"),
     "gauge_c11": ("src/gauge.rs", K / "gauge_c11.rs"),
@@ -176,7 +177,7 @@ PLAN = {
         title="Only well-formed, pairwise distinct names reach an exposed sample",
         level="proof",
         maps=True,
-        modules=["desc_c09", "registry_c09"],
+        modules=["desc_c09", "registry_c09", "metrics_c09"],
         crate_modules=["__vrec"],
         contract_sets=["charset"],
         verus=[],
@@ -190,7 +191,7 @@ PLAN = {
         modules=["text_c04"],
         verus=["c04_escape.rs"],
         functions=[],
-        assumptions=[TEXT_ASSUMPTION, "escape_string is discharged by exhaustive enumeration of concrete strings over the alphabet {a, backslash, LF, quote, CR, e-acute, CJK} up to length 2 (quick) / 3 (thorough), each executed by CBMC on the real code: bounded, enumerated -- symbolic content is out of reach (measured); the unbounded part is the Verus lemmas over the spec function", "layout functions are checked on concrete families against literal expected text (bounded, enumerated)", "encode / encode_utf8 / encode_to_string all delegate to encode_impl with a writer that appends (io::Write::write_all / String::push_str): append-only and equality of the three entry points rest on that delegation, which is visible in the source but not a separate obligation"],
+        assumptions=[TEXT_ASSUMPTION, "escape_string is discharged by exhaustive enumeration of concrete strings over the alphabet {a, backslash, LF, quote, CR, e-acute, CJK} up to length 2 (quick) / 3 (thorough), each executed by CBMC on the real code: bounded, enumerated -- symbolic content is out of reach (measured); the unbounded part is the Verus lemmas over the spec function", "layout functions are checked on concrete families against literal expected text (bounded, enumerated)", "append-only behaviour and equality of encode / encode_utf8 / encode_to_string are an obligation on one concrete family (c04_entry_points_agree_and_append)"],
     ),
     "C05": dict(
         title="A metric vector keeps exactly one child per distinct label-value tuple",
